@@ -889,21 +889,42 @@ func runTapeHist(r *Run) {
 			opDelete(r, o, "edit")
 		}
 	}
+	// sources of different sizes, deserialized alternately into one reused destination (optionally Reset() in
+	// between): the destination's stale lengths and capacities are part of the history
+	srcs := []*simObj{o}
+	for _, d := range []string{`{"a":"b"}`, `[]`, `["` + string(bytes.Repeat([]byte("s"), 300+c.Intn("srclen", 3000))) + `",{"k":[1,2.5,"x"]}]`} {
+		if c.Intn("addsrc", 2) == 1 {
+			if so := parseNew(r, []byte(d), parseCfg{Copy: true, AVX512: hostAVX512}, "extra source"); so != nil {
+				srcs = append(srcs, so)
+			}
+		}
+	}
 	s := simdjson.NewSerializer()
 	var dst *simdjson.ParsedJson
-	for k := 0; k < 2; k++ {
+	rounds := 2 + c.Intn("rounds", 4)
+	for k := 0; k < rounds; k++ {
+		src := srcs[c.Intn("src", len(srcs))]
 		s.CompressMode(simdjson.CompressMode(c.Intn("cmode", 4)))
-		out, _, err := RoundTrip(s, s, o.pj, dst)
+		reset := false
+		if dst != nil && c.Intn("reset", 4) == 0 {
+			dst.Reset()
+			reset = true
+		}
+		out, _, err := RoundTrip(s, s, src.pj, dst)
 		r.Res.Evals++
 		if err != nil {
 			return // not a tape-format matter
 		}
 		if err := CheckTape(out, true); err != nil {
-			r.violate("tape", "deserialized", fmt.Sprintf("tape rebuilt by Deserialize (dst reused %v, %d edits): %v", dst != nil, ne, err))
+			r.violate("tape", "deserialized", fmt.Sprintf("tape rebuilt by Deserialize in round %d (dst reused %v, Reset %v, %d edits on the first source): %v", k, dst != nil, reset, ne, err))
 			return
 		}
-		dst = out
-		if c.Intn("edit2", 2) == 1 {
+		if c.Intn("keepdst", 5) != 0 {
+			dst = out
+		} else {
+			dst = nil
+		}
+		if c.Intn("edit2", 3) == 0 {
 			opDelete(r, o, "edit")
 		}
 	}
